@@ -296,6 +296,21 @@ fn main() {
             run.fault("harness: a patch pool name does not classify as patch");
         }
     }
+    // scale: many files, many checksums per file, long names
+    for nfiles in [9usize, 16, 17, 33, 64, 130] {
+        let mut m = Model { rcsid: rcs[1].clone(), distfiles: vec![], patchfiles: vec![] };
+        for k in 0..nfiles {
+            let name = format!("dist/sub{}/file-{}.{}.tar.gz", k % 4, k, "x".repeat(k % 9));
+            let algos: Vec<usize> = (0..=(k % 6)).map(|a| (a + k) % 6).collect();
+            m.distfiles.push(file(name.as_bytes(), &algos, if k % 5 == 0 { None } else { Some(1u64 << (k % 64)) }));
+            let pname = format!("patch-{}{}", "a".repeat(1 + k % 7), k);
+            m.patchfiles.push(file(pname.as_bytes(), &algos, None));
+        }
+        let long = [b"d/".as_slice(), &b"n".repeat(300), b"\xe9.tgz"].concat();
+        m.distfiles.push(file(&long, SHAPES[2], Some(u64::MAX)));
+        models.push(m);
+    }
+    run.bound("scale: files with 9..130 distfiles and as many patches (1-6 checksums each, sizes 2^k), and a 300-byte non-UTF-8 name");
     par_items(&run, "C10 files", &models, |i, m, t| {
         t.states += 1;
         t.transitions += 2;
